@@ -5,7 +5,7 @@ from . import rule, info
 from ..program import AnalysisError, src, norm, ClassInfo
 from ..affine import linear, NotAffine
 from ..tables import EAGER_CONSUMERS
-from ..util import (is_name, calls_in, callee_qual, deref, ancestors, stmt_of, parent, handler_outcomes,
+from ..util import (polarity, branch_of, exclusive, is_name, calls_in, callee_qual, deref, ancestors, stmt_of, parent, handler_outcomes,
                     handler_covers, evaluator_calls, raised_class, is_subclass)
 from .common import option_usage
 from ..pattern import match, matches
@@ -130,7 +130,9 @@ def accumulator_provenance(ctx):
         ok = len(init_st) == 1
         if ok:
             g = [a for a in ancestors(init_st[0]) if isinstance(a, ast.If)]
-            ok = bool(g) and norm(g[0].test) == 'self not in %s' % tree
+            pol = polarity(g[0].test, 'self in %s' % tree) if g else None
+            # initialised in the branch taken when the slot is absent
+            ok = pol is not None and branch_of(g[0], init_st[0]) == ('false' if pol == 'true' else 'true')
         ctx.ob(ok, u, 'the slot is initialised with init() exactly when absent: %s' % [norm(s) for s in init_st])
     # init is stored as a factory, never called at construction (except Merge's probe, which is discarded)
     iu = ctx.unit('reduction.Fold.__init__')
@@ -140,9 +142,12 @@ def accumulator_provenance(ctx):
     probes = [c for c in calls_in(mu) if is_name(c.func, 'init')]
     for c in probes:
         st = stmt_of(c)
-        v = st.targets[0].id if isinstance(st, ast.Assign) and is_name(st.targets[0]) else None
-        uses = [n for n in mu.own_nodes() if isinstance(n, ast.Name) and n.id == v and isinstance(n.ctx, ast.Load)]
-        ok = all(isinstance(parent(x), ast.Call) and is_name(parent(x).func, 'type') for x in uses)
+        if isinstance(parent(c), ast.Call) and is_name(parent(c).func, 'type') and len(parent(c).args) == 1:
+            ok = True       # type(init()) directly
+        else:
+            v = st.targets[0].id if isinstance(st, ast.Assign) and st.value is c and is_name(st.targets[0]) else None
+            uses = [n for n in mu.own_nodes() if isinstance(n, ast.Name) and n.id == v and isinstance(n.ctx, ast.Load)]
+            ok = v is not None and all(isinstance(parent(x), ast.Call) and is_name(parent(x).func, 'type') for x in uses)
         ctx.ob(ok, mu, 'Merge\'s constructor probe of init() is only used for its type: %s' % norm(st))
     ctx.floor(14)
 
@@ -194,19 +199,27 @@ def fold_error(ctx):
 def lazy(ctx):
     p = ctx.program
     u = ctx.unit('reduction.Flatten._fold')
-    iff = [n for n in u.node.body if isinstance(n, ast.If)]
-    ok = len(iff) == 1 and norm(iff[0].test) == 'self.lazy' and isinstance(iff[0].body[0], ast.Return)
+    cfg = ctx.cfg(u)
+    tests = [(n, polarity(n.ast, 'self.lazy')) for n in cfg.nodes if n.kind == 'test']
+    tests = [(n, e) for n, e in tests if e]
+    ok = len(tests) == 1
     ctx.ob(ok, u, 'the lazy option selects the lazy path')
     if ok:
-        v = iff[0].body[0].value
-        q = callee_qual(p, u, v) if isinstance(v, ast.Call) else None
-        ctx.ob(q == 'itertools.chain.from_iterable' and len(v.args) == 1 and is_name(v.args[0], u.params[1]), u,
-               'lazy flattening is chain.from_iterable over the iterator itself: %s' % norm(v))
-        eager = [c for c in ast.walk(iff[0]) if isinstance(c, ast.Call) and isinstance(c.func, ast.Name) and c.func.id in EAGER_CONSUMERS]
-        ctx.ob(not eager, u, 'no eager consumer on the lazy path', '%s' % [norm(e) for e in eager])
-    rest = [n for n in u.node.body if isinstance(n, ast.Return)]
-    ok = len(rest) == 1 and isinstance(rest[0].value, ast.Call) and norm(rest[0].value) == 'super()._fold(%s)' % u.params[1]
-    ctx.ob(ok, u, 'otherwise the generic fold is used: %s' % [norm(r) for r in rest])
+        t, lazy_edge = tests[0]
+        lz = [n for n in exclusive(cfg, t, lazy_edge) if n.kind == 'stmt']
+        ok = len(lz) == 1 and isinstance(lz[0].ast, ast.Return)
+        ctx.ob(ok, u, 'the lazy path is a single return: %s' % [norm(n.ast) for n in lz])
+        if ok:
+            v = lz[0].ast.value
+            q = callee_qual(p, u, v) if isinstance(v, ast.Call) else None
+            ctx.ob(q == 'itertools.chain.from_iterable' and len(v.args) == 1 and is_name(v.args[0], u.params[1]), u,
+                   'lazy flattening is chain.from_iterable over the iterator itself: %s' % norm(v))
+            eager = [c for c in ast.walk(lz[0].ast) if isinstance(c, ast.Call) and isinstance(c.func, ast.Name) and c.func.id in EAGER_CONSUMERS]
+            ctx.ob(not eager, u, 'no eager consumer on the lazy path', '%s' % [norm(e) for e in eager])
+        rest = [n.ast for n in exclusive(cfg, t, 'false' if lazy_edge == 'true' else 'true') if n.kind == 'stmt']
+        ok = len(rest) == 1 and isinstance(rest[0], ast.Return) and isinstance(rest[0].value, ast.Call) \
+            and norm(rest[0].value) == 'super()._fold(%s)' % u.params[1]
+        ctx.ob(ok, u, 'otherwise the generic fold is used: %s' % [norm(r) for r in rest])
     iu = ctx.unit('reduction.Flatten.__init__')
     sel = [n for n in iu.node.body if isinstance(n, ast.If) and norm(n.test) == "init == 'lazy'"]
     ok = len(sel) == 1 and any(norm(s) == 'self.lazy = True' for s in sel[0].body) and any(norm(s) == 'self.lazy = False' for s in sel[0].orelse)
@@ -246,12 +259,20 @@ def helpers(ctx):
     ctx.ob(len(neg) == 1 and isinstance(neg[0].body[0], ast.Raise), u, 'negative levels are refused')
     # spec = (subspec,) + (Flatten(init='lazy'),) * (levels - 1) + (Flatten(init=init),)
     r = [n for n in u.node.body if isinstance(n, ast.Return) and isinstance(n.value, ast.Call) and callee_qual(p, u, n.value) == 'core.glom']
-    ctx.require(len(r) == 1 and is_name(r[0].value.args[1]), 'flatten(): final glom(target, spec) not found')
-    specv = r[0].value.args[1].id
+    ctx.require(len(r) == 1 and len(r[0].value.args) > 1, 'flatten(): final glom(target, spec) not found')
+
+    def terms(e, skip=None):
+        if isinstance(e, ast.BinOp) and isinstance(e.op, ast.Add):
+            return terms(e.left, skip) + terms(e.right, skip)
+        return [] if skip and is_name(e, skip) else [e]
+    sa_ = r[0].value.args[1]
     parts = []
-    for n in u.node.body:
-        if isinstance(n, (ast.Assign, ast.AugAssign)) and is_name(n.targets[0] if isinstance(n, ast.Assign) else n.target, specv):
-            parts.append(n.value)
+    if is_name(sa_):
+        for n in u.node.body:
+            if isinstance(n, (ast.Assign, ast.AugAssign)) and is_name(n.targets[0] if isinstance(n, ast.Assign) else n.target, sa_.id):
+                parts += terms(n.value, sa_.id)
+    else:
+        parts = terms(sa_)
     try:
         cnt = (0, 0)
         for v in parts:
@@ -302,10 +323,12 @@ def helpers(ctx):
     ctx.ob(kw == {'subspec': 'subspec', 'init': 'init', 'op': 'operator.iadd'}, fu, 'Flatten folds with += : %s' % kw)
     mu = ctx.unit('reduction.Merge.__init__')
     ga = [x for x in calls_in(mu) if is_name(x.func, 'getattr')]
-    ok = len(ga) == 1 and matches(ga[0], 'getattr(type($t), op, None)')
+    ok = len(ga) == 1 and matches(ga[0], 'getattr(type($$t), op, None)')
     if ok:
-        tv = match(ga[0], 'getattr(type($t), op, None)')['t']
-        ok = any(matches(n, '%s = init()' % tv) for n in mu.own_nodes() if isinstance(n, ast.Assign))
+        tv = match(ga[0], 'getattr(type($$t), op, None)')['t']
+        mcfg = ctx.cfg(mu)
+        tv = deref(mcfg, mcfg.node_containing(ga[0]), tv)
+        ok = matches(tv, 'init()')
     ctx.ob(ok, mu, 'a named op is looked up on the type of init(): %s' % [norm(g) for g in ga])
     d = [n for n in mu.own_nodes() if isinstance(n, ast.If) and norm(n.test) == 'op is None']
     ok = len(d) == 1 and norm(d[0].body[0]) == "op = 'update'"
